@@ -418,6 +418,34 @@ CHECKS = {
         "normalisation); trees > 4 elements only simulated / random; real32 at "
         "32-bit width, NaN by class; names case-insensitive",
         "DESIGN.md 4-C01", "cimwire"),
+    "C02": (
+        "TLA+ requirement machine over abstract response cells (result shape x <=2 "
+        "defects, each defect kind with the documented exception family of its "
+        "stage) and a code-shaped stage machine of pywbem's response processing "
+        "(which exception each stage raises for each defect, known leaks as "
+        "constants) model-checked with TLC; TLC-enumerated cells rendered to "
+        "concrete HTTP exchanges and driven through a requests transport adapter "
+        "into every public WBEMConnection operation under a watchdog; every "
+        "observed outcome judged by TLC",
+        "TLC checks for all 20 result shapes x (21 373 single defects + 49 948 "
+        "representative pairs out of 2802 parameterised defect records: transport "
+        "faults, HTTP status/header classes, ill-formed UTF-8/XML, envelope, ERROR "
+        "CODE classes, 17 numeric text classes x 10 numeric types x 12 sites, "
+        "boolean/datetime/char16/TYPE/ARRAYSIZE/NULL/embedded-object classes, wrong "
+        "result elements, pull parameters, method return values, tree and byte "
+        "mutations) that the stage machine with every conversion guarded yields only "
+        "a value or an exception of the family of a present defect and terminates, "
+        "and that the pinned tree's 14 unguarded conversions/indexings (and each one "
+        "alone) do not; every cell is rendered to seeded concrete responses and run "
+        "against all 41 public operation methods (59 variants incl. Iter* in "
+        "open/pull/traditional mode); TLC decides OnlyDocumented, ResultType, "
+        "ParseErrorsCarryData, Terminates and FamilyOfFailingStage on every call.",
+        "byte-level space covered by classes + seeded mutations, not enumerated "
+        "(exhaustive: false for the concrete layer); result typing checks container "
+        "and element types; transport faults are requests/urllib3 exceptions raised "
+        "by the adapter or a failing body stream (no sockets); pairs use "
+        "representative parameters",
+        "DESIGN.md 4-C02", "resppipeline"),
     "C10": (
         "TLA+ reference keyed map with set-valued status codes (RepoCore); "
         "code-shaped validation-order + dict/heap machine refinement in TLC; "
